@@ -320,6 +320,13 @@ def mon_c03(tr, drained=True):
                 if terminal[rp["req"]] > 1:
                     kind = st["line"].split()[0]
                     late = rp["result"] == R["LOCKED"] and kind == "ack" and tr.reqs[rp["req"]]["tflag"] & 0x1000
+                    # the same defect as the real replication layer plays it: the lock's record is registered in this very
+                    # step, after its hold was already timed out (TIMEOUT sent) in it, and the hold's own UNLOCK record
+                    # then drops the registration through DoAckLock(false) -> LOCKED_ERROR
+                    if rp["result"] == R["LOCKED"] and tr.reqs[rp["req"]]["tflag"] & 0x1000 and kind != "ack" and \
+                            any(n and n[0] == "reg" and int(n[2]) == rp["req"] for n in st.get("notes", [])) and \
+                            any(r2["req"] == rp["req"] and r2["result"] == R["TIMEOUT"] for r2 in st["replies"]):
+                        late = True
                     out.append(("reply:second-terminal-reply" + (":locked-error-by-ack-registered-after-rollback" if late else ""),
                                 "request %d answered twice (result %d)" % (rp["req"], rp["result"]), i))
     if drained and tr.steps and tr.steps[-1]["after"] is not None and not any(s["panic"] for s in tr.steps):
